@@ -11,6 +11,7 @@
 From Coq Require Import List ZArith Bool Lia.
 From RecordUpdate Require Import RecordUpdate.
 From GB Require Import Model.Allowance Model.Batcher Model.Shared Model.Store Proofs.Tactics Proofs.SharedInv Proofs.StoreInv.
+From GB Require Import Gen.Facts.
 Import ListNotations.
 Open Scope Z_scope.
 
@@ -55,6 +56,10 @@ Theorem C09_invariants_hold_under_faults : forall c cfgs ls y,
   yrun c (yinit c cfgs) ls = Some y -> YInv y.
 Proof. intros c cfgs ls y R. exact (yinv_run c ls _ _ (yinv_init c cfgs) R). Qed.
 Print Assumptions C09_invariants_hold_under_faults.
+
+Theorem C09_source_constants :
+  V1_default_maxinterval = 500 /\ V2_default_maxinterval = 500 /\ V1_lease_seconds = lease_seconds /\ V2_lease_seconds = lease_seconds.
+Proof. repeat split; reflexivity. Qed.
 
 (* non-vacuity: a refusal, an error-like fault, then success; the peer that held the partition is gone *)
 Definition ex_c : scfg := mkSCfg V1 1 0 true.
